@@ -32,6 +32,13 @@
 (* Quotas, repaired: one mutex per client inside one Service instance is held from Count to    *)
 (* return (Call takes it or waits).  `nodes` = number of Service instances sharing the store:  *)
 (* with 2 instances the mutexes are different objects and the race remains (named deviation).  *)
+(* The mutex is chosen by a client id: lock[<<instance, KeyOf(p)>>].  The quota belongs to ONE  *)
+(* client - the target client for codes, the LISTEN client for mappings - and all n racing     *)
+(* requests are requests of that client, so the right key (cfg.key = "owner") is the same for  *)
+(* all of them.  For mapquota the n activated codes were issued either by one target client    *)
+(* (cfg.tg = "same") or by n different ones whose ids fall into different lock shards          *)
+(* ("distinct").  Keying the mutex on the code's issuer (cfg.key = "issuer") still serialises  *)
+(* the first case and leaves the second one unprotected: named deviation WrongLockKey.         *)
 (*                                                                                             *)
 (* The configuration (kind, n, limit, nodes) is chosen in Init, so one TLC run covers every    *)
 (* kind, n \in NS and limit \in Lims.  limit 0: the caps mean "unlimited"; the two storage      *)
@@ -42,6 +49,7 @@ CONSTANTS Kinds,        \* subset of {"conncap","ctrlcap","tuncap","maplimit","c
           NS,           \* numbers of racing requests, subset of 1..4
           Lims,         \* limit values
           NodeCounts,   \* numbers of service instances (quota kinds only; other kinds always 1)
+          LockKeys,     \* subset of {"owner", "issuer"}: client id the repaired quota code keys its mutex on
           FixedKinds,   \* kinds modelled in their repaired form; the tag "maplive" = the mapping handler keeps the slot
                         \* while the connection lives (kind maplimit, actions GoLive instead of Detach)
           WithRelease,  \* admitted requests may end (connection closed) while others still race
@@ -52,12 +60,12 @@ MaxN == 4
 Procs == 1..MaxN
 Old == 100              \* pre-existing occupants are numbered Old+1, Old+2, ...
 
-VARIABLES cfg,    \* [k, n, lim, nodes] - fixed per behaviour
+VARIABLES cfg,    \* [k, n, lim, nodes, tg, key] - fixed per behaviour
           pc,     \* per request: off | start | mid | undo | wait | count | put | index | adm | live | refused | rel | evicted
           cnt,    \* the number the code compares with the limit (len(map) / activeConnCount / countable index entries)
           pre,    \* pre-existing occupants still present
           q,      \* ctrlcap: connections in the registry, oldest first
-          lock,   \* repaired quotas: holder of the per-client mutex of each service instance (0 = free)
+          lock,   \* repaired quotas: holder of the mutex <<instance, key>> (0 = free)
           eff,    \* ghost: net contribution of each request to the semantic state
           dev,    \* ghost: a named deviation happened (StaleInsert, StalePut, SlotFreedWhileLive)
           over,   \* ghost: the limit was exceeded at some instant of this behaviour
@@ -74,6 +82,11 @@ IsQuota == K \in QuotaKinds
 Fixed == K \in FixedKinds
 LiveFixed == "maplive" \in FixedKinds    \* the mapping handler's slot lives as long as the connection
 Node(p) == IF cfg.nodes = 1 THEN 1 ELSE 1 + (p % 2)
+\* the mutex a request takes: 0 = the shard of the client that owns the quota (the same for every racing request);
+\* p = the shard of the client that issued the code p activates (different per request when the issuers differ)
+KeyOf(p) == IF K = "mapquota" /\ cfg.key = "issuer" /\ cfg.tg = "distinct" THEN p ELSE 0
+LockIds == (1..2) \X (0..MaxN)
+LK(p) == <<Node(p), KeyOf(p)>>
 
 Full(c) == Lim > 0 /\ c >= Lim      \* caps: 0 = unlimited
 QFull(c) == c >= Lim                \* quotas: no zero guard in the code
@@ -82,20 +95,22 @@ Holds(s) == s \in {"adm", "live"} \/ (IsQuota /\ s = "index")      \* a code / m
 OccOf(pcx, prex) == prex + Cardinality({p \in Procs : Holds(pcx[p])})
 Occ == OccOf(pc, pre)
 
-Init == \E k \in Kinds, nn \in NS, l \in Lims, nd \in NodeCounts :
+Init == \E k \in Kinds, nn \in NS, l \in Lims, nd \in NodeCounts, tg \in {"same", "distinct"}, ky \in LockKeys :
           /\ (nd > 1 => k \in QuotaKinds)
-          /\ cfg = [k |-> k, n |-> nn, lim |-> l, nodes |-> nd]
+          /\ (tg = "distinct" => k = "mapquota")
+          /\ (ky = "issuer" => (k = "mapquota" /\ tg = "distinct" /\ k \in FixedKinds))    \* elsewhere issuer = owner
+          /\ cfg = [k |-> k, n |-> nn, lim |-> l, nodes |-> nd, tg |-> tg, key |-> ky]
           /\ LET p0 == IF l = 0 THEN 0 ELSE l - 1 IN
              /\ pre = p0 /\ cnt = p0
              /\ q = [i \in 1..p0 |-> Old + i]
           /\ pc = [p \in Procs |-> IF p <= nn THEN "start" ELSE "off"]
-          /\ lock = [i \in 1..2 |-> 0]
+          /\ lock = [i \in LockIds |-> 0]
           /\ eff = [p \in Procs |-> 0]
           /\ dev = FALSE /\ over = FALSE /\ hist = <<>>
 
 Beh(h, o) == [cfg |-> cfg, over |-> o, steps |-> h]
-Got == IF \E i \in 1..2 : lock'[i] # lock[i] /\ lock'[i] # 0
-       THEN lock'[CHOOSE i \in 1..2 : lock'[i] # lock[i] /\ lock'[i] # 0] ELSE 0
+Got == IF \E i \in LockIds : lock'[i] # lock[i] /\ lock'[i] # 0
+       THEN lock'[CHOOSE i \in LockIds : lock'[i] # lock[i] /\ lock'[i] # 0] ELSE 0
 \* conjoined last in every action: pc', pre', lock' are already determined
 Log(p, a) == /\ over' = (over \/ (Lim > 0 /\ OccOf(pc', pre') > Lim))
              /\ hist' = Append(hist, [p |-> p, a |-> a, w |-> (pc'[p] = "wait"), g |-> Got])
@@ -175,19 +190,24 @@ Release(p) == /\ WithRelease /\ ~IsQuota /\ pc[p] \in {"adm", "live"}
 \* ---- per-client quotas over shared storage -------------------------------------------------
 \* the call of p returns in state s; repaired: the mutex of its instance goes to a waiter, which runs on to its Count
 Return(p, s) ==
-  LET ws == {w \in Procs : pc[w] = "wait" /\ Node(w) = Node(p)} IN
+  LET ws == {w \in Procs : pc[w] = "wait" /\ LK(w) = LK(p)} IN
   IF Fixed /\ ws # {}
   THEN \E w \in ws : /\ pc' = [pc EXCEPT ![p] = s, ![w] = "count"]
-                     /\ lock' = [lock EXCEPT ![Node(p)] = w]
+                     /\ lock' = [lock EXCEPT ![LK(p)] = w]
   ELSE /\ pc' = [pc EXCEPT ![p] = s]
-       /\ lock' = IF Fixed THEN [lock EXCEPT ![Node(p)] = 0] ELSE lock
+       /\ lock' = IF Fixed THEN [lock EXCEPT ![LK(p)] = 0] ELSE lock
 
+\* deviation WrongLockKey: p goes ahead although another request for the same quota, on the same instance, is
+\* between its count and its return - it holds a mutex, but a different one
+InFlightOtherKey(p) == \E r \in Procs \ {p} : /\ Node(r) = Node(p) /\ KeyOf(r) # KeyOf(p)
+                                               /\ pc[r] \in {"count", "put", "index"}
 Call(p) == /\ IsQuota /\ pc[p] = "start"
-           /\ IF Fixed /\ lock[Node(p)] # 0
-              THEN pc' = [pc EXCEPT ![p] = "wait"] /\ lock' = lock
+           /\ IF Fixed /\ lock[LK(p)] # 0
+              THEN pc' = [pc EXCEPT ![p] = "wait"] /\ lock' = lock /\ dev' = dev
               ELSE /\ pc' = [pc EXCEPT ![p] = "count"]
-                   /\ lock' = IF Fixed THEN [lock EXCEPT ![Node(p)] = p] ELSE lock
-           /\ UNCHANGED <<cfg, cnt, pre, q, eff, dev>>
+                   /\ lock' = IF Fixed THEN [lock EXCEPT ![LK(p)] = p] ELSE lock
+                   /\ dev' = (dev \/ (Fixed /\ InFlightOtherKey(p)))
+           /\ UNCHANGED <<cfg, cnt, pre, q, eff>>
            /\ Log(p, "Call")
 
 \* the decision: number of countable entries in the per-client index at the time of the read
@@ -229,8 +249,8 @@ RefusedNoEffect == \A p \in Procs : pc[p] \in {"refused", "rel", "evicted", "sta
 CounterExact == cnt = pre + Cardinality({p \in Procs : pc[p] \in {"adm", "undo"} \/ (LiveFixed /\ pc[p] = "live")})
 TypeOK == /\ cfg.n \in NS /\ cfg.lim \in Lims
           /\ \A p \in Procs : pc[p] \in {"off", "start", "mid", "undo", "wait", "count", "put", "index", "adm", "live", "refused", "rel", "evicted"}
-          /\ \A i \in 1..2 : lock[i] = 0 \/ pc[lock[i]] \in {"count", "put", "index"}
-          /\ (IsQuota /\ Fixed) => \A p \in Procs : pc[p] \in {"count", "put", "index"} => lock[Node(p)] = p
+          /\ \A i \in LockIds : lock[i] = 0 \/ pc[lock[i]] \in {"count", "put", "index"}
+          /\ (IsQuota /\ Fixed) => \A p \in Procs : pc[p] \in {"count", "put", "index"} => lock[LK(p)] = p
 
 \* generation without VIEW: one line per maximal behaviour (every request refused, ended, evicted, or admitted for good)
 Terminal == \A p \in Procs : \/ pc[p] \in {"off", "refused", "rel", "evicted"}
